@@ -648,3 +648,12 @@ Definition startable_with (I : instance) (p : plan) (sv : task -> Z) : Prop :=
 Definition parents_decided (I : instance) (p : plan) : Prop :=
   forall c, In c (i_tasks I) -> decided_parents I c <> [] -> placed_in I p c = true ->
   Z.of_nat (length (decided_parents I c)) = nparents I c.
+
+(* ------------------------------------------------------------------ reservations made by earlier invocations *)
+(* a SCHEDULED task that gets no (or no positive) decision keeps its earlier reservation: the capacity monitor counts it
+   from the world description, whatever the planner fed to its model *)
+Definition overlay (resv p : plan) : plan :=
+  map (fun d => match snd d with
+                | Some _ => d
+                | None => match plan_get resv (fst d) with Some (Some r) => (fst d, Some r) | _ => d end
+                end) p.
